@@ -14,8 +14,9 @@ H('uatomic', ['uatomic.c'], cflags=['-fno-var-tracking'])
       'round ended 1/1, i.e. both threads demonstrably overlapped (iii); distinct = signatures (family, operation '
       'variant incl. memory order, width, signedness[, offset / thread count / observed litmus outcomes]).',
       ['x86-64 only: other architectures\' headers are not executed',
-       'gcc 12: an asm volatile with a memory operand is already a full compiler barrier for this compiler, so a '
-       'missing "memory" clobber or "=m" for "+m" is not observable in the generated code',
+       'gcc 12: an asm volatile with a "+m" operand is already a full compiler barrier for this compiler, so a '
+       'missing "memory" clobber alone is not observable in the generated code (a write-only "=m" operand is: '
+       'no-barrier pass)',
        'on x86 every lock-prefixed RMW is a full CPU barrier: weaker memory orders passed to the builtins produce '
        'identical machine code and are not distinguishable',
        'litmus verdicts count only if the positive control (no RMW) shows the 0/0 outcome in the same run'])
